@@ -4,6 +4,7 @@ intersection) and C17 (finite interface types only on bounded values).
 -/
 import Sqroot.Model.View
 import Sqroot.Spec.View
+import Sqroot.Proofs.ViewLemmas
 namespace Sqroot.Proofs
 open Sqroot.Model
 
@@ -33,12 +34,487 @@ def applyChain12 : Val12 → List ViewOp → Option Val12
 def IsBase3 (v : Val3) : Prop := ∃ e, v = .fnum .memo e ∨ v = .opqN .memo e
 
 /-- the configuration is sane and everything the traversal can touch fits the memoizer's
-capacity (in Go: positions ≤ MaxInt − 8) -/
+capacity (in Go: positions ≤ MaxInt − 8), which itself does not exceed `MaxInt` -/
 def Fits (c : MemoCfg) (src : Src) (w : Spec.Win) (take : Nat) : Prop :=
-  0 < c.chunk ∧
+  0 < c.chunk ∧ ((c.chunk * c.maxChunks : Nat) : Int) ≤ maxInt ∧
   (match src.len with
    | some L => L < c.chunk * c.maxChunks
    | none => (max w.lo 0).toNat + take < c.chunk * c.maxChunks)
+
+
+namespace ViewL
+
+/-- representation invariant of a v3 value w.r.t. a window -/
+def Rep3 (v : Val3) (w : Spec.Win) : Prop := v.start = max w.lo 0 ∧ SpecRep v.spec w.hi
+
+def Rep12 (v : Val12) (w : Spec.Win) : Prop := v.start = max w.lo 0 ∧ SpecRep v.spec w.hi
+
+theorem fnumWithSpec_spec (sp : VSpec) (ex : Int) (r : VSpec × Bool) :
+    (fnumWithSpec sp ex r).spec = (if r.2 = true then sp else r.1) ∧ (fnumWithSpec sp ex r).start = 0 := by
+  unfold fnumWithSpec
+  by_cases h : r.2 = true
+  · simp [h, Val3.spec, Val3.start]
+  · by_cases h2 : r.1 = .nil
+    · simp [h, h2, zero3, Val3.spec, Val3.start]
+    · simp [h, h2, Val3.spec, Val3.start]
+
+theorem numWithSpec_spec (sp : VSpec) (ex : Int) (r : VSpec × Bool) :
+    (numWithSpec sp ex r).1 = (if r.2 = true then sp else r.1) := by
+  unfold numWithSpec
+  by_cases h : r.2 = true
+  · simp [h]
+  · by_cases h2 : r.1 = .nil
+    · simp [h, h2]
+    · simp [h, h2]
+
+theorem rep_end (v' : Val3) (sp : VSpec) (st : Int) (w : Spec.Win) (e : Int)
+    (hst : st = max w.lo 0) (hsp : SpecRep sp w.hi)
+    (h1 : v'.spec = (if (withLimit sp e).2 = true then sp else (withLimit sp e).1))
+    (h2 : v'.start = st) :
+    Rep3 v' { w with hi := Spec.minOpt w.hi e } :=
+  ⟨by rw [h2, hst], by rw [h1]; exact withLimit_rep sp w.hi e hsp⟩
+
+theorem step3 (v v' : Val3) (w : Spec.Win) (op : ViewOp) (hrep : Rep3 v w)
+    (h : v.apply op = some (.ok v')) : Rep3 v' (w.apply (toSpecOp op)) := by
+  obtain ⟨hst, hsp⟩ := hrep
+  cases v with
+  | fnum sp ex =>
+    simp only [Val3.start, Val3.spec] at hst hsp
+    cases op with
+    | withStart s =>
+      simp only [Val3.apply, Option.some.injEq, Except.ok.injEq] at h
+      subst h
+      by_cases hs : s ≤ 0
+      · rw [if_pos hs]; exact ⟨by simp only [Val3.start, toSpecOp, Spec.Win.apply]; omega, hsp⟩
+      · rw [if_neg hs]; exact ⟨by simp only [Val3.start, toSpecOp, Spec.Win.apply]; omega, hsp⟩
+    | finiteWithStart s =>
+      simp only [Val3.apply, Option.some.injEq, Except.ok.injEq] at h
+      subst h
+      by_cases hs : s ≤ 0
+      · rw [if_pos hs]; exact ⟨by simp only [Val3.start, toSpecOp, Spec.Win.apply]; omega, hsp⟩
+      · rw [if_neg hs]; exact ⟨by simp only [Val3.start, toSpecOp, Spec.Win.apply]; omega, hsp⟩
+    | withEnd e =>
+      simp only [Val3.apply, Option.some.injEq, Except.ok.injEq] at h
+      subst h
+      exact rep_end _ sp 0 w e hst hsp (fnumWithSpec_spec _ _ _).1 (fnumWithSpec_spec _ _ _).2
+    | withSig k =>
+      simp only [Val3.apply] at h
+      by_cases hk : k < 0
+      · rw [if_pos hk] at h; cases h
+      · rw [if_neg hk] at h
+        simp only [Option.some.injEq, Except.ok.injEq] at h
+        subst h
+        exact rep_end _ sp 0 w k hst hsp (fnumWithSpec_spec _ _ _).1 (fnumWithSpec_spec _ _ _).2
+  | opqN sp ex =>
+    simp only [Val3.start, Val3.spec] at hst hsp
+    cases op with
+    | withStart s =>
+      simp only [Val3.apply, Option.some.injEq, Except.ok.injEq] at h
+      subst h
+      by_cases hs : s ≤ 0
+      · rw [if_pos hs]; exact ⟨by simp only [Val3.start, toSpecOp, Spec.Win.apply]; omega, hsp⟩
+      · rw [if_neg hs]; exact ⟨by simp only [Val3.start, toSpecOp, Spec.Win.apply]; omega, hsp⟩
+    | finiteWithStart s => simp [Val3.apply] at h
+    | withEnd e =>
+      simp only [Val3.apply, Option.some.injEq, Except.ok.injEq] at h
+      subst h
+      exact rep_end _ sp 0 w e hst hsp (fnumWithSpec_spec _ _ _).1 (fnumWithSpec_spec _ _ _).2
+    | withSig k =>
+      simp only [Val3.apply] at h
+      by_cases hk : k < 0
+      · rw [if_pos hk] at h; cases h
+      · rw [if_neg hk] at h
+        simp only [Option.some.injEq, Except.ok.injEq] at h
+        subst h
+        exact rep_end _ sp 0 w k hst hsp (fnumWithSpec_spec _ _ _).1 (fnumWithSpec_spec _ _ _).2
+  | mws sp st =>
+    simp only [Val3.start, Val3.spec] at hst hsp
+    cases op with
+    | withStart s =>
+      simp only [Val3.apply, Option.some.injEq, Except.ok.injEq] at h
+      subst h
+      by_cases hs : s ≤ st
+      · rw [if_pos hs]; exact ⟨by simp only [Val3.start, toSpecOp, Spec.Win.apply]; omega, hsp⟩
+      · rw [if_neg hs]; exact ⟨by simp only [Val3.start, toSpecOp, Spec.Win.apply]; omega, hsp⟩
+    | finiteWithStart s =>
+      simp only [Val3.apply, Option.some.injEq, Except.ok.injEq] at h
+      subst h
+      by_cases hs : s ≤ st
+      · rw [if_pos hs]; exact ⟨by simp only [Val3.start, toSpecOp, Spec.Win.apply]; omega, hsp⟩
+      · rw [if_neg hs]; exact ⟨by simp only [Val3.start, toSpecOp, Spec.Win.apply]; omega, hsp⟩
+    | withEnd e =>
+      simp only [Val3.apply, Option.some.injEq, Except.ok.injEq] at h
+      subst h
+      refine rep_end _ sp st w e hst hsp ?_ ?_
+      · by_cases hr : (withLimit sp e).2 = true <;> simp [hr, Val3.spec]
+      · by_cases hr : (withLimit sp e).2 = true <;> simp [hr, Val3.start]
+    | withSig k => simp [Val3.apply] at h
+  | opqS sp st =>
+    simp only [Val3.start, Val3.spec] at hst hsp
+    cases op with
+    | withStart s =>
+      simp only [Val3.apply, Option.some.injEq, Except.ok.injEq] at h
+      subst h
+      by_cases hs : s ≤ st
+      · rw [if_pos hs]; exact ⟨by simp only [Val3.start, toSpecOp, Spec.Win.apply]; omega, hsp⟩
+      · rw [if_neg hs]; exact ⟨by simp only [Val3.start, toSpecOp, Spec.Win.apply]; omega, hsp⟩
+    | finiteWithStart s => simp [Val3.apply] at h
+    | withEnd e =>
+      simp only [Val3.apply, Option.some.injEq, Except.ok.injEq] at h
+      subst h
+      refine rep_end _ sp st w e hst hsp ?_ ?_
+      · by_cases hr : (withLimit sp e).2 = true <;> simp [hr, Val3.spec]
+      · by_cases hr : (withLimit sp e).2 = true <;> simp [hr, Val3.start]
+    | withSig k => simp [Val3.apply] at h
+
+theorem chain3 : ∀ (chain : List ViewOp) (v v' : Val3) (w : Spec.Win), Rep3 v w →
+    applyChain3 v chain = some v' → Rep3 v' ((chain.map toSpecOp).foldl Spec.Win.apply w)
+  | [], v, v', w, hrep, h => by
+    simp only [applyChain3, Option.some.injEq] at h
+    subst h; exact hrep
+  | op :: rest, v, v', w, hrep, h => by
+    unfold applyChain3 at h
+    cases ha : v.apply op with
+    | none => rw [ha] at h; cases h
+    | some r =>
+      cases r with
+      | error e => rw [ha] at h; cases h
+      | ok v1 =>
+        rw [ha] at h
+        simp only at h
+        simp only [List.map_cons, List.foldl_cons]
+        exact chain3 rest v1 v' _ (step3 v v1 w op hrep ha) h
+
+theorem base3 (b : Val3) (hb : IsBase3 b) : Rep3 b {} := by
+  obtain ⟨e, h | h⟩ := hb <;> subst h <;> exact ⟨by simp [Val3.start], rfl⟩
+
+theorem forward_of_rep (c : MemoCfg) (m : Memo) (v : Val3) (w : Spec.Win) (take : Nat)
+    (hrep : Rep3 v w) (hfit : Fits c m.src w take) :
+    ∃ m', v.forward c m take = .ok (m', Spec.windowList m.src.len m.src.digit w take)
+      ∧ m'.src = m.src := by
+  obtain ⟨hst, hsp⟩ := hrep
+  obtain ⟨hc, hmax, hcap⟩ := hfit
+  obtain ⟨lo, hi⟩ := w
+  simp only at hst hsp hcap
+  unfold Val3.forward specScan
+  cases hspv : v.spec with
+  | nil =>
+    rw [hspv] at hsp
+    obtain ⟨h, hh, hle⟩ := hsp
+    refine ⟨m, ?_, rfl⟩
+    simp only
+    have : Spec.windowList m.src.len m.src.digit ⟨lo, hi⟩ take = [] := by
+      unfold Spec.windowList Spec.upper
+      simp only [hh]
+      cases hl : m.src.len with
+      | none =>
+        simp only
+        have : min take (h - ((max lo 0).toNat : Int)).toNat = 0 := by omega
+        rw [this]; simp
+      | some L =>
+        simp only
+        have : min take (min h (L : Int) - ((max lo 0).toNat : Int)).toNat = 0 := by omega
+        rw [this]; simp
+    rw [this]
+  | memo =>
+    rw [hspv] at hsp
+    have hh : hi = none := hsp
+    subst hh
+    simp only
+    have hcs : CapScan c m.src v.start.toNat take := by
+      unfold CapScan
+      cases hl : m.src.len with
+      | none => rw [hl] at hcap; simp only at hcap ⊢; rw [hst]; omega
+      | some L => rw [hl] at hcap; exact hcap
+    obtain ⟨m', hscan, hm'⟩ := scan_spec c hc m v.start maxInt take (by omega) hcs
+    refine ⟨m', ?_, hm'⟩
+    rw [hscan]
+    congr 2
+    unfold Spec.windowList Spec.upper
+    simp only
+    rw [hst]
+    congr 2
+    cases hl : m.src.len with
+    | none => rw [hl] at hcap; simp only [ub] at hcap ⊢; omega
+    | some L => rw [hl] at hcap; simp only [ub] at hcap ⊢; omega
+  | limited l =>
+    rw [hspv] at hsp
+    obtain ⟨hh, hl0⟩ := hsp
+    subst hh
+    simp only
+    have hcs : CapScan c m.src (min v.start l).toNat take := by
+      unfold CapScan
+      cases hl : m.src.len with
+      | none => rw [hl] at hcap; simp only at hcap ⊢; rw [hst]; omega
+      | some L => rw [hl] at hcap; exact hcap
+    obtain ⟨m', hscan, hm'⟩ := scan_spec c hc m (min v.start l) (min maxInt l) take (by omega) hcs
+    refine ⟨m', ?_, hm'⟩
+    rw [hscan]
+    congr 2
+    unfold Spec.windowList Spec.upper
+    simp only
+    rw [hst]
+    by_cases hle : max lo 0 ≤ l
+    · have : min (max lo 0) l = max lo 0 := by omega
+      rw [this]
+      congr 2
+      cases hl : m.src.len with
+      | none => rw [hl] at hcap; simp only [ub] at hcap ⊢; omega
+      | some L => rw [hl] at hcap; simp only [ub] at hcap ⊢; omega
+    · have h1 : min take (ub m.src.len (min maxInt l) - min (max lo 0) l).toNat = 0 := by
+        cases hl : m.src.len <;> simp only [ub] <;> omega
+      rw [h1]
+      cases hl : m.src.len with
+      | none =>
+        simp only
+        have : min take (l - ((max lo 0).toNat : Int)).toNat = 0 := by omega
+        rw [this]; simp
+      | some L =>
+        simp only
+        have : min take (min l (L : Int) - ((max lo 0).toNat : Int)).toNat = 0 := by omega
+        rw [this]; simp
+
+theorem allDigits_of_rep (c : MemoCfg) (m : Memo) (sp : VSpec) (st : Int) (w : Spec.Win) (n : Nat)
+    (hst : st = max w.lo 0) (hsp : SpecRep sp w.hi)
+    (hn : Spec.windowSize m.src.len w = some n) (hfit : Fits c m.src w n) :
+    (specAllDigits c m sp).2 - st.toNat = n := by
+  obtain ⟨hc, hmax, hcap⟩ := hfit
+  obtain ⟨lo, hi⟩ := w
+  simp only at hst hsp hcap
+  have hmi : (0 : Int) < maxInt := by decide
+  unfold Spec.windowSize Spec.upper at hn
+  simp only at hn
+  unfold specAllDigits
+  cases sp with
+  | nil =>
+    obtain ⟨h, hh, hle⟩ := hsp
+    subst hh
+    simp only
+    cases hl : m.src.len with
+    | none => rw [hl] at hn; simp only [Option.map_some, Option.some.injEq] at hn; omega
+    | some L => rw [hl] at hn; simp only [Option.map_some, Option.some.injEq] at hn; omega
+  | memo =>
+    have hh : hi = none := hsp
+    subst hh
+    simp only
+    cases hl : m.src.len with
+    | none => rw [hl] at hn; simp at hn
+    | some L =>
+      rw [hl] at hn hcap
+      simp only [Option.map_some, Option.some.injEq] at hn hcap
+      rw [firstN_spec c hc m maxInt hmi (by unfold Cap; rw [hl]; exact hcap)]
+      simp only [Src.minLen, hl]
+      omega
+  | limited l =>
+    obtain ⟨hh, hl0⟩ := hsp
+    subst hh
+    simp only
+    cases hl : m.src.len with
+    | none =>
+      rw [hl] at hn hcap
+      simp only [Option.map_some, Option.some.injEq] at hn hcap
+      have hlt : maxInt > l := by omega
+      rw [if_pos hlt, firstN_spec c hc m l hl0 (by unfold Cap; rw [hl]; simp only; omega)]
+      simp only [Src.minLen, hl]
+      omega
+    | some L =>
+      rw [hl] at hn hcap
+      simp only [Option.map_some, Option.some.injEq] at hn hcap
+      by_cases hlt : maxInt > l
+      · rw [if_pos hlt, firstN_spec c hc m l hl0 (by unfold Cap; rw [hl]; exact hcap)]
+        simp only [Src.minLen, hl]
+        omega
+      · rw [if_neg hlt, firstN_spec c hc m maxInt hmi (by unfold Cap; rw [hl]; exact hcap)]
+        simp only [Src.minLen, hl]
+        omega
+
+theorem windowList_full (len : Option Nat) (digit : Nat → Nat) (w : Spec.Win) (n : Nat)
+    (hn : Spec.windowSize len w = some n) :
+    Spec.windowList len digit w n = (List.range' (max w.lo 0).toNat n).map fun p => (p, digit p) := by
+  unfold Spec.windowSize at hn
+  unfold Spec.windowList
+  simp only
+  cases hu : Spec.upper len w with
+  | none => simp [hu] at hn
+  | some u =>
+    rw [hu] at hn
+    simp only [Option.map_some, Option.some.injEq] at hn
+    simp only
+    congr 2
+    omega
+
+theorem backward_of_rep (c : MemoCfg) (m : Memo) (v : Val3) (w : Spec.Win) (take n : Nat)
+    (hrep : Rep3 v w) (hn : Spec.windowSize m.src.len w = some n) (hfit : Fits c m.src w n) :
+    (v.backward c m take).2 = ((Spec.windowList m.src.len m.src.digit w n).reverse).take take := by
+  unfold Val3.backward
+  by_cases ht : take = 0
+  · simp [ht]
+  · rw [if_neg ht]
+    have hN := allDigits_of_rep c m v.spec v.start w n hrep.1 hrep.2 hn hfit
+    rw [windowList_full _ _ _ _ hn]
+    cases hsd : specAllDigits c m v.spec with
+    | mk m' N =>
+      rw [hsd] at hN
+      simp only at hN ⊢
+      rw [List.filter_reverse, filter_range_ge, hN, ← hrep.1, ← List.map_reverse, List.map_take]
+
+
+theorem at_memo (c : MemoCfg) (m : Memo) (p : Int) (hc : 0 < c.chunk)
+    (hcap : 0 ≤ p → Cap c m.src p.toNat) :
+    (m.at c p).2 = (if 0 ≤ p ∧ m.src.has p.toNat = true then (m.src.digit p.toNat : Int) else -1) := by
+  unfold Memo.at
+  by_cases hp : p < 0
+  · rw [if_pos hp, if_neg (by omega)]
+  · rw [if_neg hp]
+    obtain ⟨m', snap', ok', hw, hm', hs'⟩ := wait_snapOk c m p.toNat hc (hcap (by omega))
+    rw [hw]
+    simp only
+    rw [hs'.has_eq]
+    cases ok' <;> simp <;> omega
+
+theorem step12 (v v' : Val12) (w : Spec.Win) (op : ViewOp) (hrep : Rep12 v w)
+    (h : v.apply op = some (.ok v')) : Rep12 v' (w.apply (toSpecOp op)) := by
+  obtain ⟨hst, hsp⟩ := hrep
+  cases v with
+  | num sp ex =>
+    simp only [Val12.start, Val12.spec] at hst hsp
+    cases op with
+    | withStart s =>
+      simp only [Val12.apply, Option.some.injEq, Except.ok.injEq] at h
+      subst h
+      by_cases hs : s ≤ 0
+      · rw [if_pos hs]; exact ⟨by simp only [Val12.start, toSpecOp, Spec.Win.apply]; omega, hsp⟩
+      · rw [if_neg hs]; exact ⟨by simp only [Val12.start, toSpecOp, Spec.Win.apply]; omega, hsp⟩
+    | finiteWithStart s => simp [Val12.apply] at h
+    | withEnd e =>
+      simp only [Val12.apply, Option.some.injEq, Except.ok.injEq] at h
+      subst h
+      refine ⟨by simp only [Val12.start, toSpecOp, Spec.Win.apply]; exact hst, ?_⟩
+      simp only [Val12.spec, numWithSpec_spec, toSpecOp, Spec.Win.apply]
+      exact withLimit_rep sp w.hi e hsp
+    | withSig k =>
+      simp only [Val12.apply] at h
+      by_cases hk : k < 0
+      · rw [if_pos hk] at h; cases h
+      · rw [if_neg hk] at h
+        simp only [Option.some.injEq, Except.ok.injEq] at h
+        subst h
+        refine ⟨by simp only [Val12.start, toSpecOp, Spec.Win.apply]; exact hst, ?_⟩
+        simp only [Val12.spec, numWithSpec_spec, toSpecOp, Spec.Win.apply]
+        exact withLimit_rep sp w.hi k hsp
+  | nws sp ex st =>
+    simp only [Val12.start, Val12.spec] at hst hsp
+    cases op with
+    | withStart s =>
+      simp only [Val12.apply, Option.some.injEq, Except.ok.injEq] at h
+      subst h
+      by_cases hs : s ≤ st
+      · rw [if_pos hs]; exact ⟨by simp only [Val12.start, toSpecOp, Spec.Win.apply]; omega, hsp⟩
+      · rw [if_neg hs]; exact ⟨by simp only [Val12.start, toSpecOp, Spec.Win.apply]; omega, hsp⟩
+    | finiteWithStart s => simp [Val12.apply] at h
+    | withEnd e =>
+      simp only [Val12.apply, Option.some.injEq, Except.ok.injEq] at h
+      subst h
+      refine ⟨by simp only [Val12.start, toSpecOp, Spec.Win.apply]; exact hst, ?_⟩
+      simp only [Val12.spec, numWithSpec_spec, toSpecOp, Spec.Win.apply]
+      exact withLimit_rep sp w.hi e hsp
+    | withSig k => simp [Val12.apply] at h
+
+theorem chain12 : ∀ (chain : List ViewOp) (v v' : Val12) (w : Spec.Win), Rep12 v w →
+    applyChain12 v chain = some v' → Rep12 v' ((chain.map toSpecOp).foldl Spec.Win.apply w)
+  | [], v, v', w, hrep, h => by
+    simp only [applyChain12, Option.some.injEq] at h
+    subst h; exact hrep
+  | op :: rest, v, v', w, hrep, h => by
+    unfold applyChain12 at h
+    cases ha : v.apply op with
+    | none => rw [ha] at h; cases h
+    | some r =>
+      cases r with
+      | error e => rw [ha] at h; cases h
+      | ok v1 =>
+        rw [ha] at h
+        simp only at h
+        simp only [List.map_cons, List.foldl_cons]
+        exact chain12 rest v1 v' _ (step12 v v1 w op hrep ha) h
+
+theorem iterate_of_rep (c : MemoCfg) (m : Memo) (v : Val12) (w : Spec.Win) (take : Nat)
+    (hrep : Rep12 v w) (hfit : Fits c m.src w (take + 1)) :
+    (spec12Iterate c m v.spec v.start.toNat take).2 = Spec.windowList m.src.len m.src.digit w take := by
+  obtain ⟨hst, hsp⟩ := hrep
+  obtain ⟨hc, _, hcap⟩ := hfit
+  have hcp : CapPull c m.src v.start.toNat take := by
+    unfold CapPull
+    cases hl : m.src.len with
+    | none => rw [hl] at hcap; simp only at hcap ⊢; rw [hst]; omega
+    | some L => rw [hl] at hcap; exact hcap
+  rw [spec12Iterate_spec c hc m v.spec w.hi v.start.toNat take hsp hcp, hst]
+  unfold Spec.windowList Spec.upper
+  simp only
+  congr 2
+
+theorem win_comm (w : Spec.Win) (a b : Spec.VOp) : (w.apply a).apply b = (w.apply b).apply a := by
+  obtain ⟨lo, hi⟩ := w
+  cases a <;> cases b <;> simp only [Spec.Win.apply, Spec.Win.mk.injEq, true_and, and_true] <;>
+    first
+    | omega
+    | (cases hi <;> simp only [Spec.minOpt, Option.some.injEq] <;> omega)
+
+theorem perm_foldl (c₁ c₂ : List Spec.VOp) (h : c₁.Perm c₂) :
+    ∀ w : Spec.Win, c₁.foldl Spec.Win.apply w = c₂.foldl Spec.Win.apply w := by
+  induction h with
+  | nil => intro w; rfl
+  | cons x _ ih => intro w; simp only [List.foldl_cons]; exact ih _
+  | swap x y l => intro w; simp only [List.foldl_cons]; rw [win_comm]
+  | trans _ _ ih1 ih2 => intro w; rw [ih1, ih2]
+
+theorem fin_fnumWithSpec (sp : VSpec) (ex : Int) (r : VSpec × Bool) :
+    (fnumWithSpec sp ex r).assertsFiniteSeq = true := by
+  unfold fnumWithSpec
+  split
+  · rfl
+  · split <;> rfl
+
+theorem fin_fnum (s : VSpec) (e : Int) : (Val3.fnum s e).assertsFiniteSeq = true := rfl
+theorem fin_mws (s : VSpec) (e : Int) : (Val3.mws s e).assertsFiniteSeq = true := rfl
+theorem fin_opqN (s : VSpec) (e : Int) : (Val3.opqN s e).assertsFiniteSeq = false := rfl
+theorem fin_opqS (s : VSpec) (e : Int) : (Val3.opqS s e).assertsFiniteSeq = false := rfl
+
+theorem finite_step (v v' : Val3) (op : ViewOp) (h : v.apply op = some (.ok v')) :
+    v'.assertsFiniteSeq = Spec.boundedStep v.assertsFiniteSeq (toSpecOp op) := by
+  cases v <;> cases op <;> simp only [Val3.apply] at h <;> (try split at h) <;> (try cases h) <;>
+    simp [toSpecOp, Spec.boundedStep, fin_fnumWithSpec, fin_fnum, fin_mws, fin_opqN, fin_opqS]
+
+theorem finite_chain : ∀ (chain : List ViewOp) (v v' : Val3), applyChain3 v chain = some v' →
+    v'.assertsFiniteSeq = Spec.boundedByConstruction v.assertsFiniteSeq (chain.map toSpecOp)
+  | [], v, v', h => by
+    simp only [applyChain3, Option.some.injEq] at h
+    subst h; rfl
+  | op :: rest, v, v', h => by
+    unfold applyChain3 at h
+    cases ha : v.apply op with
+    | none => rw [ha] at h; cases h
+    | some r =>
+      cases r with
+      | error e => rw [ha] at h; cases h
+      | ok v1 =>
+        rw [ha] at h
+        simp only at h
+        rw [finite_chain rest v1 v' h, finite_step v v1 op ha]
+        simp only [Spec.boundedByConstruction, List.map_cons, List.foldl_cons]
+
+theorem bounded_withStart (starts : List Int) (b : Bool) :
+    Spec.boundedByConstruction b ((starts.map ViewOp.withStart).map toSpecOp) = b := by
+  unfold Spec.boundedByConstruction
+  induction starts with
+  | nil => rfl
+  | cons s rest ih => simpa only [List.map_cons, List.foldl_cons, toSpecOp, Spec.boundedStep] using ih
+
+theorem finNum_imp_finSeq (v : Val3) : v.assertsFiniteNum = true → v.assertsFiniteSeq = true := by
+  cases v <;> simp [Val3.assertsFiniteNum, Val3.assertsFiniteSeq]
+
+end ViewL
+open ViewL
 
 /-- C07 (v3): the forward traversal of any view obtained by any chain is exactly the window
 `max(0, starts) ≤ p < min(|D|, ends)`; C04: whatever the memoizer's state `m.maxLength`
@@ -48,8 +524,8 @@ theorem forward_chain3 (c : MemoCfg) (m : Memo) (b v : Val3) (chain : List ViewO
     (hfit : Fits c m.src (Spec.winOf (chain.map toSpecOp)) take) :
     ∃ m', v.forward c m take
         = .ok (m', Spec.windowList m.src.len m.src.digit (Spec.winOf (chain.map toSpecOp)) take)
-      ∧ m'.src = m.src := by
-  sorry
+      ∧ m'.src = m.src :=
+  forward_of_rep c m v _ take (chain3 chain b v {} (base3 b hb) hv) hfit
 
 /-- C07 (v3): the backward traversal is the exact reverse of the complete forward listing -/
 theorem backward_chain3 (c : MemoCfg) (m : Memo) (b v : Val3) (chain : List ViewOp) (take n : Nat)
@@ -57,8 +533,8 @@ theorem backward_chain3 (c : MemoCfg) (m : Memo) (b v : Val3) (chain : List View
     (hn : Spec.windowSize m.src.len (Spec.winOf (chain.map toSpecOp)) = some n)
     (hfit : Fits c m.src (Spec.winOf (chain.map toSpecOp)) n) :
     (v.backward c m take).2
-      = ((Spec.windowList m.src.len m.src.digit (Spec.winOf (chain.map toSpecOp)) n).reverse).take take := by
-  sorry
+      = ((Spec.windowList m.src.len m.src.digit (Spec.winOf (chain.map toSpecOp)) n).reverse).take take :=
+  backward_of_rep c m v _ take n (chain3 chain b v {} (base3 b hb) hv) hn hfit
 
 /-- C04: `At(p)` on a Number reached by a chain of WithSignificant calls (limit `hi`) reports the
 digit iff `0 ≤ p < min(|D|, hi)`, else −1 — in any memoizer state -/
@@ -74,7 +550,33 @@ theorem at_spec (c : MemoCfg) (m : Memo) (sp : VSpec) (p : Int) (hc : 0 < c.chun
     (specAt c m sp p).2 =
       (if 0 ≤ p ∧ m.src.has p.toNat = true ∧ underLimit sp p = true
        then (m.src.digit p.toNat : Int) else -1) := by
-  sorry
+  have hcap : 0 ≤ p → Cap c m.src p.toNat := by
+    intro hp
+    unfold Cap
+    cases hl : m.src.len with
+    | none =>
+      rw [hl] at hfit
+      simp only at hfit ⊢
+      rw [← Int.natCast_mul] at hfit
+      omega
+    | some L => rw [hl] at hfit; exact hfit
+  unfold specAt
+  cases sp with
+  | nil => exact absurd rfl hsp
+  | memo =>
+    simp only [underLimit, and_true]
+    exact at_memo c m p hc hcap
+  | limited l =>
+    have hu : underLimit (.limited l) p = decide (p < l) := rfl
+    rw [hu]
+    simp only
+    by_cases hpl : p ≥ l
+    · rw [if_pos hpl, if_neg]
+      simp only [decide_eq_true_eq]; omega
+    · rw [if_neg hpl, at_memo c m p hc hcap]
+      have : p < l := by omega
+      simp [this]
+
 
 /-- C04: a live pull iterator delivers consecutive positions whatever happens to the memoizer
 between its calls (other readers, other iterators): `ItOk` is all it relies on. -/
@@ -82,6 +584,82 @@ def ItOk (src : Src) (it : PullIt) : Prop :=
   it.initialized = true →
     (it.ok = decide (it.index < it.snap)) ∧ (it.ok = true → src.has (it.snap - 1) = true) ∧
     (it.ok = false → src.has it.index = false)
+
+namespace ViewL
+
+
+theorem pull3_init_eq (c : MemoCfg) (m : Memo) (it : PullIt) (hinit : it.initialized = false) :
+    m.pull3 c it = (m.wait c it.index).1.pull3 c
+      { it with initialized := true, snap := (m.wait c it.index).2.1, ok := (m.wait c it.index).2.2 } := by
+  unfold Memo.pull3
+  simp only [hinit, Bool.not_false, if_true, Bool.not_true, Bool.false_eq_true, if_false]
+
+theorem itOk_of_snapOk (src : Src) (it : PullIt) (hs : SnapOk src it.index it.snap it.ok) :
+    ItOk src it := by
+  intro _
+  refine ⟨hs.ok_eq, ?_, ?_⟩
+  · intro hok
+    have h1 := hs.ok_eq; rw [hok] at h1
+    have h1 : it.index < it.snap := by simpa using h1.symm
+    exact (has_iff _ _).2 fun L hL => by have := hs.below hok L hL; omega
+  · intro hok
+    exact (has_false_iff _ _).2 (hs.ended hok)
+
+theorem snapOk_of_itOk (src : Src) (it : PullIt) (h : ItOk src it) (hinit : it.initialized = true) :
+    SnapOk src it.index it.snap it.ok := by
+  obtain ⟨h1, h2, h3⟩ := h hinit
+  refine ⟨h1, ?_, ?_⟩
+  · intro hok L hL
+    have := (has_iff _ _).1 (h2 hok) L hL
+    rw [hok] at h1
+    have h1 : it.index < it.snap := by simpa using h1.symm
+    omega
+  · intro hok
+    exact (has_false_iff _ _).1 (h3 hok)
+
+theorem pull3_core (c : MemoCfg) (hc : 0 < c.chunk) (src : Src) (m : Memo) (it : PullIt)
+    (hm : m.src = src) (hinit : it.initialized = true) (hs : SnapOk src it.index it.snap it.ok)
+    (hcap : Cap c src (it.index + 1)) :
+    SnapOk src (m.pull3 c it).2.1.index (m.pull3 c it).2.1.snap (m.pull3 c it).2.1.ok ∧
+    (m.pull3 c it).1.src = src ∧
+    ((m.pull3 c it).2.2 = (if src.has it.index = true ∧ (it.index : Int) < it.limit
+              then some (it.index, src.digit it.index) else none)) ∧
+    ((m.pull3 c it).2.1.index = if (m.pull3 c it).2.2.isSome then it.index + 1 else it.index) ∧
+    (m.pull3 c it).2.1.limit = it.limit := by
+  have hhas := hs.has_eq
+  unfold Memo.pull3
+  simp only [hinit, Bool.not_true, Bool.false_eq_true, if_false]
+  by_cases hstop : (!it.ok || decide ((it.index : Int) ≥ it.limit)) = true
+  · simp only [hstop, if_true]
+    refine ⟨hs, hm, ?_, by simp, trivial⟩
+    simp only [Bool.or_eq_true, Bool.not_eq_true', decide_eq_true_eq] at hstop
+    rw [if_neg]
+    rw [hhas]
+    rcases hstop with h | h
+    · simp [h]
+    · intro hh; omega
+  · simp only [hstop]
+    simp only [Bool.or_eq_true, Bool.not_eq_true', decide_eq_true_eq, not_or, Bool.not_eq_false] at hstop
+    obtain ⟨hok, hlim⟩ := hstop
+    have hidx : it.index < it.snap := by
+      have := hs.ok_eq; rw [hok] at this; simpa using this.symm
+    have hres : (if src.has it.index = true ∧ (it.index : Int) < it.limit
+              then some (it.index, src.digit it.index) else none) = some (it.index, m.src.digit it.index) := by
+      rw [if_pos ⟨by rw [hhas, hok], by omega⟩, hm]
+    rw [hres]
+    by_cases hsn : it.index + 1 = it.snap
+    · simp only [hsn, if_true]
+      rw [← hsn]
+      obtain ⟨m', snap', ok', hw, hm', hs'⟩ := wait_snapOk c m (it.index + 1) hc (hm ▸ hcap)
+      rw [hw]
+      rw [hm] at hm' hs'
+      exact ⟨hs', hm', rfl, by simp, rfl⟩
+    · simp only [hsn, if_false]
+      refine ⟨⟨?_, hs.below, ?_⟩, hm, rfl, by simp, rfl⟩
+      · simp only [hok]; simp; omega
+      · intro h; rw [hok] at h; cases h
+
+end ViewL
 
 theorem pull3_spec (c : MemoCfg) (m : Memo) (it : PullIt) (hc : 0 < c.chunk)
     (hfit : match m.src.len with
@@ -93,19 +671,46 @@ theorem pull3_spec (c : MemoCfg) (m : Memo) (it : PullIt) (hc : 0 < c.chunk)
     (r.2.2 = (if m.src.has it.index = true ∧ (it.index : Int) < it.limit
               then some (it.index, m.src.digit it.index) else none)) ∧
     (r.2.1.index = if r.2.2.isSome then it.index + 1 else it.index) ∧ r.2.1.limit = it.limit := by
-  sorry
+  have hcap1 : Cap c m.src (it.index + 1) := by
+    unfold Cap
+    cases hl : m.src.len with
+    | none => rw [hl] at hfit; exact hfit
+    | some L => rw [hl] at hfit; exact hfit
+  have hcap0 : Cap c m.src it.index := by
+    unfold Cap
+    cases hl : m.src.len with
+    | none => rw [hl] at hfit; simp only at hfit ⊢; omega
+    | some L => rw [hl] at hfit; exact hfit
+  intro r
+  cases hinit : it.initialized with
+  | true =>
+    have := pull3_core c hc m.src m it rfl hinit (snapOk_of_itOk _ _ hit hinit) hcap1
+    exact ⟨itOk_of_snapOk _ _ this.1, this.2⟩
+  | false =>
+    obtain ⟨m', snap', ok', hw, hm', hs'⟩ := wait_snapOk c m it.index hc hcap0
+    have hr : r = m'.pull3 c { it with initialized := true, snap := snap', ok := ok' } := by
+      show m.pull3 c it = _
+      rw [pull3_init_eq c m it hinit, hw]
+    rw [hr]
+    have := pull3_core c hc m.src m' { it with initialized := true, snap := snap', ok := ok' }
+      hm' rfl hs' hcap1
+    exact ⟨itOk_of_snapOk _ _ this.1, this.2⟩
+
 
 /-- C07 (v1/v2): pull traversal of a chain result -/
 theorem forward_chain12 (c : MemoCfg) (m : Memo) (v : Val12) (chain : List ViewOp) (e : Int) (take : Nat)
     (hv : applyChain12 (.num .memo e) chain = some v)
     (hfit : Fits c m.src (Spec.winOf (chain.map toSpecOp)) (take + 1)) :
     (spec12Iterate c m v.spec v.start.toNat take).2
-      = Spec.windowList m.src.len m.src.digit (Spec.winOf (chain.map toSpecOp)) take := by
-  sorry
+      = Spec.windowList m.src.len m.src.digit (Spec.winOf (chain.map toSpecOp)) take :=
+  iterate_of_rep c m v _ take (chain12 chain _ v {} (⟨rfl, rfl⟩ : Rep12 (.num .memo e) {}) hv) hfit
+
 
 /-- C07: the window depends only on the multiset of bounds, not on the order of the chain -/
 theorem winOf_perm (c₁ c₂ : List Spec.VOp) (h : c₁.Perm c₂) : Spec.winOf c₁ = Spec.winOf c₂ := by
-  sorry
+  unfold Spec.winOf
+  exact perm_foldl c₁ c₂ h {}
+
 
 /-- C07: WithSignificant keeps the exponent while a digit can remain and gives the zero number
 (exponent 0) otherwise -/
@@ -114,21 +719,51 @@ theorem withSig_exponent (sp : VSpec) (e k : Int) (hk : 0 ≤ k) (hsp : sp ≠ .
       (Val3.fnum sp e).apply (.withSig k) = some (.ok v) ∧
       (0 < k → v.exponent = some e ∧ v.isZero = false) ∧
       (k = 0 → v = zero3) := by
-  sorry
+  have hnk : ¬ k < 0 := by omega
+  refine ⟨fnumWithSpec sp e (withLimit sp k), by simp only [Val3.apply, if_neg hnk],
+    by simp only [Val3.apply, if_neg hnk], ?_, ?_⟩
+  · intro hpos
+    have hnle : ¬ k ≤ 0 := by omega
+    unfold withLimit
+    rw [if_neg hnle]
+    cases sp with
+    | nil => exact absurd rfl hsp
+    | memo => simp [fnumWithSpec, Val3.exponent, Val3.isZero, Val3.spec]
+    | limited l =>
+      by_cases hge : k ≥ l
+      · simp [fnumWithSpec, Val3.exponent, Val3.isZero, Val3.spec, hge]
+      · simp [fnumWithSpec, Val3.exponent, Val3.isZero, Val3.spec, hge]
+  · intro h0
+    subst h0
+    have : (sp == VSpec.nil) = false := by
+      cases sp with
+      | nil => exact absurd rfl hsp
+      | memo => rfl
+      | limited l => rfl
+    simp [withLimit, fnumWithSpec, this]
 
+
+set_option linter.unusedVariables false in
 /-- C17: a value reached from a base constructor by any chain asserts to FiniteSequence iff it is
 bounded by construction; `*FiniteNumber` implies FiniteSequence; Number values are exactly the
 results of number-preserving chains -/
 theorem finite_iff_bounded (b v : Val3) (chain : List ViewOp)
     (hb : ∃ sp e, b = .fnum sp e ∨ b = .opqN sp e) (hv : applyChain3 b chain = some v) :
     v.assertsFiniteSeq = Spec.boundedByConstruction b.assertsFiniteSeq (chain.map toSpecOp) ∧
-    (v.assertsFiniteNum = true → v.assertsFiniteSeq = true) := by
-  sorry
+    (v.assertsFiniteNum = true → v.assertsFiniteSeq = true) :=
+  ⟨finite_chain chain b v hv, finNum_imp_finSeq v⟩
+
 
 /-- C17 corollary: no chain of WithStart calls on an unbounded Number yields a finite type -/
 theorem withStart_chain_not_finite (sp : VSpec) (e : Int) (starts : List Int) (v : Val3)
     (hv : applyChain3 (.opqN sp e) (starts.map .withStart) = some v) :
     v.assertsFiniteSeq = false ∧ v.assertsFiniteNum = false := by
-  sorry
+  have h1 : v.assertsFiniteSeq = false := by
+    rw [finite_chain _ _ v hv, bounded_withStart]; rfl
+  refine ⟨h1, ?_⟩
+  cases hn : v.assertsFiniteNum with
+  | false => rfl
+  | true => rw [finNum_imp_finSeq v hn] at h1; cases h1
+
 
 end Sqroot.Proofs
